@@ -492,6 +492,53 @@ func runC10(r *ev.Run) {
 					}
 				}
 				r.Count("probes:second-restart", 1)
+				rs2.Close()
+				// identifiers stay used even if a compaction clears the interrupted segment away: on a fresh copy of the
+				// image, reopen, run a compaction (it may refuse because of the damaged input: fine), restart, flush one
+				// document: its segment id must exceed every id that appears in the image's file names
+				if err := func() error {
+					cdir, err := os.MkdirTemp("", "verif-c10cmp-*")
+					if err != nil {
+						panic(err)
+					}
+					defer os.RemoveAll(cdir)
+					if err := v.img.materialise(cdir); err != nil {
+						panic(err)
+					}
+					c1, err := p.open(cdir)
+					if err != nil {
+						return fmt.Errorf("Open: %w", err)
+					}
+					cerr := c1.VerifCompactNow()
+					if err := c1.Close(); err != nil {
+						return fmt.Errorf("Close after compaction (%v): %w", cerr, err)
+					}
+					c2, err := p.open(cdir)
+					if err != nil {
+						return fmt.Errorf("Open after compaction (%v) and restart: %w", cerr, err)
+					}
+					defer c2.Close()
+					cd := genStoreDoc(rng, p, ids.next(), "aftercompaction")
+					if err := c2.AddWithID(cd.ID, cd.Vec, cd.Text, cd.Meta); err != nil {
+						return fmt.Errorf("Add after compaction and restart: %w", err)
+					}
+					if err := c2.Flush(); err != nil {
+						return fmt.Errorf("Flush after compaction and restart: %w", err)
+					}
+					var newest uint64
+					for _, seg := range c2.VerifSegmentIDs() {
+						if seg > newest {
+							newest = seg
+						}
+					}
+					if newest <= v.img.maxID() {
+						rep("crash.segment-id-reused", fmt.Sprintf("image %s: after reopen, compaction (%v), restart and one flush the newest segment id is %d, but the image already used ids up to %d", v.origin, cerr, newest, v.img.maxID()), wit())
+					}
+					r.Count("probes:compaction-then-restart-id-check", 1)
+					return nil
+				}(); err != nil {
+					rep("crash.compaction-then-restart-fails", fmt.Sprintf("image %s: %v", v.origin, err), wit())
+				}
 				inside := vi > 0
 				r.Eval(inside && len(durable) > 0, ev.Digest(v.img.digest()))
 			}()
